@@ -208,6 +208,42 @@ func c15Run(c core.Case, env *core.Env) core.Result {
 			r.Fail("vs-long", "share verifies against t+2 commitments")
 		}
 	}
+	// commitments replaced by coordinate pairs that are not points of the curve (a receiver holds whatever the decoder or
+	// the caller gave it): x+-1, x+-2 (ed25519 point compression keeps only the parity of x), y+1, x+p
+	{
+		fp := ref.SecpP
+		if isEd(curve) {
+			fp = ref.EdP
+		}
+		for k := range vs {
+			for what, d := range map[string][2]*big.Int{
+				"x+1": {big1, big0}, "x+2": {big2, big0}, "x-2": {big.NewInt(-2), big0}, "x-1": {big.NewInt(-1), big0}, "y+1": {big0, big1}, "y+2": {big0, big2}, "x+p": {fp, big0}, "y+p": {big0, fp},
+			} {
+				nx, ny := new(big.Int).Add(vs[k].X(), d[0]), new(big.Int).Add(vs[k].Y(), d[1])
+				if nx.Sign() < 0 {
+					continue
+				}
+				alt := append(vss.Vs{}, vs...)
+				alt[k] = crypto.NewECPointNoCurveCheck(ec, nx, ny)
+				okAny := false
+				if p, msg, _ := guard(func() {
+					for _, sh := range shares {
+						if sh.Verify(ec, t, alt) {
+							okAny = true
+						}
+					}
+				}); p {
+					r.Fail("vs-offcurve-panic", "Verify panicked with Vs[%d] replaced by the off-curve pair %s: %s", k, what, msg)
+					continue
+				}
+				if okAny {
+					r.Fail("vs-offcurve:"+what, "a share verifies although Vs[%d] was replaced by %s of its coordinates (not a curve point)", k, what)
+				}
+				r.Count("alterations_rejected", int64(len(shares)))
+				r.Count("offcurve_commitments", 1)
+			}
+		}
+	}
 	// a dealer that deals a polynomial of another degree and labels the shares with threshold t: the number of
 	// commitments is the degree bound, so these self-consistent dealings must not verify for threshold t
 	for _, tt := range []int{t - 1, t + 1} {
